@@ -227,12 +227,24 @@ def names_and_linkback_history(ctx, prog, stats):
     import ovld
     wl = world_from(prog["spec"])
     parent = progs.Built(wl, [])
-    child_ov = ovld.Ovld(mixins=[parent.ov], linkback=True, name="child")
+    # a chain of 1-3 linkback derivations; only the last one is ever called (the intermediate functions must relay the
+    # notification although they were never built themselves)
+    depth = rng.choice([1, 2, 3])
+    child_ov = parent.ov
+    for lvl in range(depth):
+        child_ov = ovld.Ovld(mixins=[child_ov], linkback=True, name=f"child{lvl}") if rng.random() < 0.7 else child_ov.copy(linkback=True)
+    stats["linkback_chain_depths"][depth] += 1
     plive = []
-    for step in range(rng.randint(2, 5)):
-        d = dict(rng.choice(defs)); d["id"] = nid; nid += 1; d.pop("names", None)
-        parent.register(d)
-        plive.append(d)
+    for step in range(rng.randint(2, 6)):
+        uniq = [x for x in plive if sum(1 for y in plive if R_same_sig(x, y)) == 1]     # keeps clear of KF-05's history shape
+        if uniq and rng.random() < 0.25:
+            gone = rng.choice(uniq)
+            plive = [x for x in plive if x["id"] != gone["id"]]
+            parent.unregister(gone["id"])
+        else:
+            d = dict(rng.choice(defs)); d["id"] = nid; nid += 1; d.pop("names", None)
+            parent.register(d)
+            plive.append(d)
         fresh = progs.Built(world_from(prog["spec"]), plive)
         for call in prog["calls"]:
             if len(call["pos"]) != npos:
@@ -258,7 +270,7 @@ def R_same_sig(a, b):
 
 
 def run(ctx):
-    stats = {"evaluations": 0, "table_histories": 0, "function_histories": 0, "kf04": 0, "kf05": 0, "name_linkback_histories": 0}
+    stats = {"evaluations": 0, "table_histories": 0, "function_histories": 0, "kf04": 0, "kf05": 0, "name_linkback_histories": 0, "linkback_chain_depths": collections.Counter()}
     samples = []
     n = 50 if ctx.quick() else 2000
     distinct = set()
@@ -277,7 +289,7 @@ def run(ctx):
             break
     return {"evaluations": stats["evaluations"], "distinct_nontrivial": len(distinct),
             "rule": "random programs (as C02); table histories: 6-20 steps mixing registrations and plain accesses on a real MultiTypeMap; function histories: 4-14 steps of register (incl. re-registration of an identical signature) / unregister / probe on a real Ovld, all calls probed after every step against a function freshly built from the resulting method set; distinct by program content, each history counts as non-trivial (at least one change between probes)",
-            "samples": samples, "histories_with_differing_parameter_names_and_linkback_children": stats["name_linkback_histories"], "table_histories": stats["table_histories"], "function_histories": stats["function_histories"],
+            "samples": samples, "histories_with_differing_parameter_names_and_linkback_children": stats["name_linkback_histories"], "linkback_chain_depths": {str(k): v for k, v in stats["linkback_chain_depths"].items()}, "table_histories": stats["table_histories"], "function_histories": stats["function_histories"],
             "stale_results_attributed_to_KF-04": stats["kf04"], "tiebreak_history_attributed_to_KF-05": stats["kf05"],
             "traces_validated_against_impl": stats["evaluations"]}
 
